@@ -64,9 +64,19 @@ class Explorer:
         self.bounded = []  # bounds applied (bounded mode)
         self.inputs = {}
         self.guards = []  # conditions of merged ifs being executed
+        self.feas_ms = 1500  # budget of one path-feasibility query
 
     # -- nondeterminism -----------------------------------------------------
     def _decide(self, compute_options):
+        forced = getattr(self, "forced", None)
+        if forced and self.forced_pos < len(forced):
+            # this sub-task explores one fixed combination of the first decisions (parallel split)
+            opts = compute_options()
+            i = forced[self.forced_pos]
+            self.forced_pos += 1
+            if i >= len(opts):
+                raise PathEnd("preset beyond the feasible options")
+            return opts[i]
         if self.pos < len(self.trail):
             idx, opts = self.trail[self.pos]
         else:
@@ -103,12 +113,14 @@ class Explorer:
             raise NeedFork("undetermined condition inside a merged if")
 
         def options():
-            opts = []
-            if solve.feasible(self.axioms + self.pc + [c]):
-                opts.append(True)
-            if solve.feasible(self.axioms + self.pc + [z3.Not(c)]):
-                opts.append(False)
-            return opts
+            # only a definite `unsat` prunes a side; the budget is small because an infeasible side is
+            # usually refuted at once while proving the other side satisfiable can be arbitrarily hard
+            t = self.feas_ms
+            if not solve.feasible(self.axioms + self.pc + [c], t):
+                return [False]
+            if not solve.feasible(self.axioms + self.pc + [z3.Not(c)], t):
+                return [True]
+            return [True, False]
 
         r = self._decide(options)
         self.pc.append(c if r else z3.Not(c))
@@ -176,6 +188,13 @@ class Explorer:
             return True
         if verdict in ("sat", "sat-nomodel"):
             ob.status = "failed"
+            refs = getattr(self, "refinements", None)
+            if refs:
+                # counter-model refinement: ask again with the inputs' full type invariants and small sizes,
+                # so that the model concretises to a well-formed input for the replay (the verdict is unchanged)
+                v2, m2, dt2, b2, _ = solve.check(assertions + list(refs), timeout_ms=15000, use_cvc5=False)
+                if v2 == "sat" and m2 is not None:
+                    model = m2
             ins = inputs if inputs is not None else self.inputs
             cm = None
             if model is not None:
@@ -187,6 +206,12 @@ class Explorer:
                           "model": cm, "note": note, "backend": backend, "last_exception": getattr(self, "last_exc", None),
                           "violated": str(c)[:600]}
             return False
+        import os
+        if os.environ.get("PYVC_DUMP"):
+            s = z3.Solver()
+            s.add(*assertions)
+            with open(os.path.join(os.environ["PYVC_DUMP"], f"{name}.p{self.paths}.q{ob.queries}.smt2"), "w") as fh:
+                fh.write(f"; decisions {[o[i] for i, o in self.trail[:self.pos]]}\n; goal {c}\n" + s.to_smt2())
         if ob.status != "failed":
             ob.status = "undecided"
             ob.unknown_note = f"solver answered unknown within {solve.tier_timeout_ms()} ms on path {self.paths} ({backend})"
@@ -210,6 +235,9 @@ class Explorer:
             self.guards = []
             self.axioms = []  # definitional axioms are re-stated by each path (they mention that path's fresh symbols)
             self.axiom_keys = set()
+            self._elems_used, self._pending_at = False, []
+            self.forced_pos = 0
+            self.refinements = []
             prev = theory.CURRENT
             theory.CURRENT = self
             try:
